@@ -1343,7 +1343,7 @@ class Corr:
         if isinstance(y, (complex, CObs)):
             newcontent = [None if _check_for_none(self, item) else y / item for item in self.content]
             return Corr(newcontent, prange=self.prange)
-        return (self / y) ** (-1)
+        return (self ** (-1)) * y
 
     @property
     def real(self):
